@@ -1,5 +1,6 @@
 import Ldlm.Proofs.Table
 import Ldlm.Proofs.CoreDead
+import Ldlm.Proofs.Threads
 /-!
 C02 — Lock/TryLock/Unlock are linearizable to a counting lock with keys.
 
@@ -23,6 +24,15 @@ threads, any schedule (`List Act`).  Every action emits the operations of the at
 * `unlock_exactly_once` — sequential server model M2, every reachable state and EVERY continuation of
   the history (requests, expiries, session ends, collections, restarts): after a successful Unlock of
   (name, key) the pair is never held again and every further Unlock with it fails.
+* `linearizable_real_time` — model M1t (`Ldlm.Threads`): the same critical sections run by THREADS with a
+  program counter, each call with an invocation and a return event.  For EVERY schedule of any number
+  of TryLock / Lock / Unlock calls (cancelled and refused ones included) on a lock object nobody is
+  using: (1) every specification operation is attributed to a call that has been invoked and has not
+  yet returned — its linearization point lies inside the call's interval, so the order of the
+  operations respects the real-time order of non-overlapping calls; (2) every call returns exactly the
+  result its operation has in the specification (a call without operation reports failure, a Lock that
+  was handed the unit after giving up hands it back inside the call); (3) the operations in that order
+  are a run of the atomic counting lock.  (1)–(3) is linearizability with explicit linearization points.
 After the repair of D14/W1 (`fix:` 066861c) `Lock.Unlock` is one critical section and the model has
 no "key removed, unit not yet released" state: the W1 history is not a run of the model any more.
 -/
@@ -85,6 +95,49 @@ example : (runObj [120] o0 sched).map (·.2) =
     some [.grant [120] [107, 49], .unlock [120] [107, 49] true, .grant [120] [107, 50]] := by decide
 example : AllSide [120] o0 sched := by
   simp [AllSide, sched, o0, stepObj, sideOk, Obj.freeUnit]
+
+/-! ### linearizability with real-time order (M1t: the calls as threads) -/
+section
+open Ldlm.Threads
+
+/-- **C02, real-time order**: every schedule of threaded calls yields a well-formed trace (`wf`:
+linearization points inside the calls' intervals, results as in the specification) whose operations,
+in trace order, are a run of the atomic counting lock ending in the abstraction of the final state -/
+theorem linearizable_real_time (n : Str) (o : Obj) (as : List TAct) (s' : TSt) (tr : List Ev)
+    (hi : ObjInv o) (hq : o.q = []) (ha : o.acq = []) (hside : AllSideT n ⟨o, []⟩ as)
+    (hr : trun n ⟨o, []⟩ as = some (s', tr)) :
+    wf n [] tr = true ∧ ∃ h', arun o.size o.abs (lins tr) = some h' ∧ h'.Perm s'.o.abs := by
+  have h0 := idle_inv n o hi hq ha
+  exact ⟨(trun_wf n as _ s' tr h0 hr).2, trun_refines n as _ s' tr h0 hside hr⟩
+
+/-- the checker is not vacuous: it rejects a grant attributed to a call that has already returned, a
+result that contradicts the operation, and an operation of a call never invoked -/
+example : wf [120] [] [.inv 1 (.tryLock [107]), .ret 1 false, .lin 1 (.try [120] [107] true)] = false := by decide
+example : wf [120] [] [.inv 1 (.tryLock [107]), .lin 1 (.try [120] [107] true), .ret 1 false] = false := by decide
+example : wf [120] [] [.lin 2 (.grant [120] [107])] = false := by decide
+example : wf [120] [] [.inv 1 (.lock [107]), .lin 1 (.grant [120] [107]), .ret 1 true] = true := by decide
+
+/-! non-vacuity: T1 takes the size-1 lock, T2 queues behind it, T3's TryLock is refused, T1 unlocks (the
+unit is handed to T2 inside T1's critical section: the grant is T2's linearization point, while T2's
+call is pending), T2 records its key and returns — the schedule runs, meets the side condition, and the
+trace carries the hand-over `lin 2 (grant …)` between `inv 2` and `ret 2` -/
+def oT : Obj := { size := 1, cur := 0, q := [], keys := [], acq := [], plain := 0 }
+def schedT : List TAct :=
+  [.invoke 1 (.lock [107, 49]), .next 1, .next 1, .next 1, .next 1,
+   .invoke 2 (.lock [107, 50]), .next 2, .next 2,
+   .invoke 3 (.tryLock [107, 51]), .next 3, .next 3, .next 3,
+   .invoke 1 (.unlock [107, 49]), .next 1, .next 1, .next 1,
+   .next 2, .next 2]
+
+example : (trun [120] ⟨oT, []⟩ schedT).map (·.2) = some
+    [.inv 1 (.lock [107, 49]), .lin 1 (.grant [120] [107, 49]), .ret 1 true,
+     .inv 2 (.lock [107, 50]),
+     .inv 3 (.tryLock [107, 51]), .lin 3 (.try [120] [107, 51] false), .ret 3 false,
+     .inv 1 (.unlock [107, 49]), .lin 1 (.unlock [120] [107, 49] true), .lin 2 (.grant [120] [107, 50]), .ret 1 true,
+     .ret 2 true] := by decide
+example : AllSideT [120] ⟨oT, []⟩ schedT := by
+  simp [AllSideT, schedT, oT, tstep, project, stepObj, sideOk, Obj.freeUnit, AMap.get, AMap.set, AMap.del, handOver, credit]
+end
 
 /-! ### each granted key unlocks successfully exactly once (M2, for every continuation) -/
 section
